@@ -480,6 +480,23 @@ func genC05(g *Gen, c09 bool) {
 				root["a"] = fmt.Sprintf("${b:%d}", 1)
 				root["b"] = "${a:2}"
 			}
+			if r.P(1, 3) {
+				// a namespace without a reference of its own whose sub-namespaces fail in different
+				// ways (a missing name, a cycle): which failure Unpack reports must not depend on the
+				// order in which they are visited
+				grp := map[string]interface{}{}
+				for _, nm := range []string{"u", "v", "w", "x"}[:2+r.Intn(3)] {
+					switch r.Intn(3) {
+					case 0:
+						grp[nm] = map[string]interface{}{"k": "${nope_" + nm + "}"}
+					case 1:
+						grp[nm] = map[string]interface{}{"k": "${grp." + nm + ".k}"}
+					default:
+						grp[nm] = map[string]interface{}{"k": "${grp." + nm + ".j:?unset " + nm + "}"}
+					}
+				}
+				root["grp"] = grp
+			}
 			opts := []ucfg.Option{ucfg.PathSep("."), ucfg.VarExp}
 			seen := map[string]bool{}
 			var coqs, descs []string
@@ -548,6 +565,10 @@ func genC05(g *Gen, c09 bool) {
 			for k := 0; k < runs*2; k++ {
 				in := map[interface{}]interface{}{}
 				ents := [][2]interface{}{{"a", va}, {c05Key("a"), vb}, {"b", randScalarFixed(k)}, {c05Key("c"), true}}
+				if i%2 == 1 {
+					// two spellings of one list index
+					ents = [][2]interface{}{{"l.01", va}, {"l.1", vb}, {"l.0", randScalarFixed(k)}, {"b", true}}
+				}
 				perm := r.Perm(len(ents))
 				for _, j := range perm {
 					in[ents[j][0]] = ents[j][1]
